@@ -160,11 +160,16 @@ func RunDaemon() {
 		signal.Notify(sig, os.Interrupt, syscall.SIGTERM, syscall.SIGINT)
 
 		g.Add(func() error {
-			<-sig
-			ui.Info("Received SIGTERM signal, exiting...")
+			select {
+			case <-sig:
+				ui.Info("Received SIGTERM signal, exiting...")
+			case <-ctx.Done():
+			}
 			return nil
 		}, func(err error) {
-			defer close(sig)
+			// Note: sig must not be closed while it is still registered for notifications,
+			// a second signal during shutdown would panic ("send on closed channel")
+			// before all fans are restored
 			cancel()
 		})
 	}
